@@ -30,6 +30,22 @@ def xor_all(xs):
     return r
 
 
+def sequence_checks(hx, cls, m, enc, k, forms, tag):
+    """encode is a pure function: damaging a returned codeword, or encoding ANY other input (of any accepted length) in between,
+    does not change encode(m)"""
+    keep = enc.copy()
+    enc.invert(0)
+    enc.invert(len(enc) - 1)
+    hx.prove(cls.encode(m) == keep, "%s: encode(m) is unaffected by in-place changes to a previously returned codeword" % tag)
+    for n in forms:
+        other = hx.ba(n, "other%d" % n)
+        st, r = hx.guard(cls.encode, other)
+        again = cls.encode(m)
+        hx.prove(again == keep, "%s: encode(m) is unaffected by an encode of an unrelated %d-bit input in between" % (tag, n))
+        if st == "ok" and n == k:
+            hx.prove(cls.deinterleave_data_bits(r, False) == other if tag != "32/11" else True, "%s: the unrelated %d-bit message also round-trips right after encode(m)" % (tag, n))
+
+
 def h_128_72(hx):
     m = hx.ba(72, "m")
     snap = m.copy()
@@ -60,6 +76,7 @@ def h_128_72(hx):
     # three input forms give the same bits
     hx.prove(VBPTC12873.encode(d77) == enc, "128/72: encode(message+checksum) == encode(message)")
     hx.prove(VBPTC12873.encode(allb) == enc, "128/72: encode(de-interleaved matrix) == encode(message)")
+    sequence_checks(hx, VBPTC12873, m, enc, 72, (72, 77, 128), "128/72")
     hx.cover("128")
 
 
@@ -83,6 +100,7 @@ def h_68_28(hx):
     hx.prove(EQ(d36[28:].tolist(), want.tolist()), "68/28: CRC part of the 36-bit extraction == computed CRC-8")
     hx.prove(VBPTC6828.encode(d36) == enc, "68/28: encode(message+crc) == encode(message)")
     hx.prove(VBPTC6828.encode(allb) == enc, "68/28: encode(de-interleaved matrix) == encode(message)")
+    sequence_checks(hx, VBPTC6828, m, enc, 28, (28, 36, 68), "68/28")
     hx.cover("68")
 
 
